@@ -2006,5 +2006,5 @@ RULES = [
     ("C13-R3", r3_reset_before_use, 6),
     ("C13-R4", r4_registry_copies, 3),
     ("C13-R5", r5_template_compile_state_rebound, 2),
-    ("C13-R6", r6_stale_layout_dropped_before_use, 3),
+    ("C13-R6", r6_stale_layout_dropped_before_use, 2),
 ]
